@@ -109,6 +109,8 @@ type scenario struct {
 	conns      map[*simConn]*brokerConn
 	budgetIn   int // broker-initiated publishes left
 	hostile    bool
+	inCount    int
+	sent2      map[uint16][]byte
 	wscript    []writeAns // when non-empty: the fate of the next writes
 	noFaults   bool       // suspend random faults (scripted parts of a history)
 	inject     [][]byte   // broker packets to deliver next, before anything else
@@ -164,15 +166,16 @@ func (sc *scenario) onWrite(c *simConn, p []byte) writeAns {
 			a.kind = wHard
 		}
 	} else if !sc.noFaults && sc.r.intn(1000) < sc.opts.faultRate {
+		// a failing Write accepts less than everything
 		switch sc.r.intn(3) {
 		case 0:
 			if c.armedW {
-				a = writeAns{kind: wTimeout, n: sc.r.intn(len(p) + 1)}
+				a = writeAns{kind: wTimeout, n: sc.r.intn(len(p))}
 			}
 		case 1:
-			a = writeAns{kind: wHard, n: sc.r.intn(len(p) + 1)}
+			a = writeAns{kind: wHard, n: sc.r.intn(len(p))}
 		case 2:
-			a = writeAns{kind: wClosed, n: sc.r.intn(len(p) + 1)}
+			a = writeAns{kind: wClosed, n: sc.r.intn(len(p))}
 		}
 	}
 	// the broker sees what was accepted
@@ -297,7 +300,16 @@ func (sc *scenario) react(c *simConn, all []byte) {
 
 func (sc *scenario) inboundPublish() []byte {
 	qos := sc.r.intn(3)
-	topic := []byte(fmt.Sprintf("in/%d", sc.r.intn(4)))
+	if len(sc.inflight2) > 0 && sc.r.chance(1, 4) {
+		// retransmission of an exactly-once message: same content, DUP flag
+		id := sc.inflight2[sc.r.intn(len(sc.inflight2))]
+		pkt := append([]byte(nil), sc.sent2[id]...)
+		pkt[0] |= 8
+		return pkt
+	}
+	// topic and payload identify the message within the history
+	sc.inCount++
+	topic := []byte(fmt.Sprintf("in/%d", sc.inCount))
 	n := sc.r.intn(12)
 	if sc.opts.bigMsgs && sc.r.chance(1, 4) {
 		n = sc.opts.bufSize - 6 + sc.r.intn(sc.opts.bufSize)
@@ -310,22 +322,11 @@ func (sc *scenario) inboundPublish() []byte {
 	var id uint16
 	body := append([]byte{byte(len(topic) >> 8), byte(len(topic))}, topic...)
 	if qos > 0 {
-		if qos == 2 && len(sc.inflight2) > 0 && sc.r.chance(1, 3) {
-			id = sc.inflight2[sc.r.intn(len(sc.inflight2))] // retransmission
-			head |= 8
-		} else {
-			sc.nextInID++
-			if sc.nextInID == 0 {
-				sc.nextInID = 1
-			}
-			id = sc.nextInID
-			if qos == 2 {
-				sc.inflight2 = append(sc.inflight2, id)
-				if len(sc.inflight2) > 4 {
-					sc.inflight2 = sc.inflight2[1:]
-				}
-			}
+		sc.nextInID++
+		if sc.nextInID == 0 {
+			sc.nextInID = 1
 		}
+		id = sc.nextInID
 		body = append(body, byte(id>>8), byte(id))
 	}
 	body = append(body, payload...)
@@ -335,7 +336,18 @@ func (sc *scenario) inboundPublish() []byte {
 		pkt = append(pkt, byte(l|0x80))
 	}
 	pkt = append(pkt, byte(l))
-	return append(pkt, body...)
+	pkt = append(pkt, body...)
+	if qos == 2 {
+		sc.inflight2 = append(sc.inflight2, id)
+		if len(sc.inflight2) > 4 {
+			sc.inflight2 = sc.inflight2[1:]
+		}
+		if sc.sent2 == nil {
+			sc.sent2 = map[uint16][]byte{}
+		}
+		sc.sent2[id] = append([]byte(nil), pkt...)
+	}
+	return pkt
 }
 
 func (sc *scenario) hostilePacket() []byte {
@@ -444,6 +456,7 @@ type hist struct {
 	// Online is still released; lockWrite spins until ReadSlices notices
 	writeFailed bool
 	wasClosed   bool
+	rewrote      map[uint][]byte // Persistence content after an environment rewrite, reported with the next step
 	cid, cfgTerm string
 	initEvs      []event
 	label        string
@@ -523,8 +536,13 @@ func (h *hist) record(op string, ret string) {
 	h.settle()
 	evs := h.log.take()
 	done, xev := h.observe()
-	h.steps = append(h.steps, fmt.Sprintf("mkStep (%s) %s (%s) %s %s %s",
-		op, coqEvents(evs), ret, done, xev, coqBool(h.online())))
+	st := "None"
+	if h.rewrote != nil {
+		st = "(Some " + coqStore(h.rewrote) + ")"
+		h.rewrote = nil
+	}
+	h.steps = append(h.steps, fmt.Sprintf("mkStep (%s) %s (%s) %s %s %s %s",
+		op, coqEvents(evs), ret, done, xev, coqBool(h.online()), st))
 	for _, e := range evs {
 		if e.Ans != 0 && (e.Kind != "read" || e.Ans != rData) {
 			h.nontriv = true
@@ -616,7 +634,11 @@ func (h *hist) readBackoff(err error) {
 		t0 := time.Now()
 		<-ch
 		h.stats["backoff:timer"]++
-		h.record(op, fmt.Sprintf("RetWait 2 %d", time.Since(t0).Milliseconds()))
+		if ms := time.Since(t0).Milliseconds(); ms == 0 {
+			h.record(op, "RetWait 0 0") // not distinguishable from the released channel
+		} else {
+			h.record(op, fmt.Sprintf("RetWait 2 %d", ms))
+		}
 	}
 }
 
@@ -643,6 +665,29 @@ func (h *hist) adopt() {
 	}
 	h.nontriv = true
 	h.record(fmt.Sprintf("OpAdopt %s %s", coqZ(max1), coqZ(max2)), fmt.Sprintf("RetAdopt %d %d", len(warn), classOf(fatal)))
+}
+
+// coqStore renders Persistence content with ascending keys.
+func coqStore(m map[uint][]byte) string {
+	keys := make([]int, 0, len(m))
+	for k := range m {
+		keys = append(keys, int(k))
+	}
+	sort.Ints(keys)
+	items := make([]string, len(keys))
+	for i, k := range keys {
+		items[i] = fmt.Sprintf("(%d, %s)", k, coqBytes(m[uint(k)]))
+	}
+	return coqList(items)
+}
+
+// rewrite lets the environment change the Persistence content behind the client's back.
+func (h *hist) rewrite(f func(m map[uint][]byte)) {
+	h.store.mu.Lock()
+	f(h.store.m)
+	h.store.mu.Unlock()
+	h.rewrote = h.store.snapshot()
+	h.nontriv = true
 }
 
 func coqZ(n int) string {
